@@ -248,6 +248,9 @@ class Terms(object):
             return C(t[1][i])
         if t[0] == "phi":
             return self.phi(self.project(a, i) for a in t[1])
+        if t[0] == "ite":
+            a, b = self.project(t[2], i), self.project(t[3], i)
+            return a if a == b else ("ite", t[1], a, b)
         return ("proj", t, i)
 
     def phi(self, alts):
